@@ -133,8 +133,9 @@ func (x *xmlParser) Pull() (node.Node, bool, error) {
 		case xml.CharData:
 			value := x.readCharData(string(n))
 
-			// White space between the markup outside of the document element is not part of the document.
-			if x.depth == 0 && strings.Trim(value, " \t\r\n") == "" {
+			// White space between the markup outside of the document element is not part of the document,
+			// and neither is a byte order mark in front of it.
+			if x.depth == 0 && strings.Trim(value, " \t\r\n\ufeff") == "" {
 				continue
 			}
 
